@@ -180,3 +180,9 @@ Definition v_ok (c : vcase) : bool :=
   (* member ids are compared when the proof bytes are readable as a whole; on unreadable bytes the real function
      returns whatever its node iterator yields or an error (it must not panic: a harness monitor checks that) *)
   match pr with Some _ => opt_eqb (Msg.list_eqb N.eqb) (member_ids pe pr) ids | None => true end.
+
+(* ---- election trigger as its user sees it (Timer.v): public ops, triggers read from the channel in order ---- *)
+From LH Require Import Timer.
+Definition tgcase := (list pop * list (N * N))%type.
+Definition tg_ok (c : tgcase) : bool :=
+  list_eqb (fun a b => N.eqb (fst a) (fst b) && N.eqb (snd a) (snd b)) (tm_public_run (fst c)) (snd c).
